@@ -62,7 +62,7 @@ func genC08(dir, tier string, seed int64) {
 		maxRank, keep = 3, 1
 	}
 	raw := newCaseWriter(dir, "C08_ops", opHeader("CheckC08"), opFooter,
-		fmt.Sprintf("bounded-exhaustive: all data shapes of rank 1..%d with extents 1..3 (and six shapes with an extent of 5, 9 or 17) x (Transpose: all permutations, non-permutations (all zeros, a repeated entry, an entry r, r+1 or -1 at every position), a too-short and a too-long perm, default; Concat: every axis in [-r-1,r] with 1..3 inputs incl. one differing extent per axis and inputs of two different element types; Gather: every axis in [-r-1,r], index tensors of shape (),(1),(2),(2,2),(1,3) with positive, negative and out-of-range indices; Expand: every target shape of rank 1..3; Slice: every axis in both spellings (and the same axis shifted out of range by r and 2r on either side) x all (start,end) in [-d-2,d+2]^2 x steps {1,2,3,-1} + INT64 extremes + all two-axis slices of rank-2 data); index-coded data, dtype round-robin over all 14 element types, every Transpose / Concat / Gather case additionally as int64 and as float32; index tensors int32 instead of int64 in every fourth Gather / Slice case; quick tier keeps a seeded 1/%d sample of the Slice sweep of rank 3 and of Expand", maxRank, keep), tier == "thorough", 1200)
+		fmt.Sprintf("bounded-exhaustive: all data shapes of rank 1..%d with extents 1..3 (and six shapes with an extent of 5, 9 or 17) x (Transpose: all permutations, non-permutations (all zeros, a repeated entry, an entry r, r+1 or -1 at every position), a too-short and a too-long perm, default; Concat: every axis in [-r-1,r] with 1..3 inputs incl. one differing extent per axis and inputs of two different element types; Gather: every axis in [-r-1,r], index tensors of shape (),(1),(2),(2,2),(1,3) with positive, negative and out-of-range indices; Expand: every target shape of rank 1..3; Slice: every axis in both spellings (and the same axis shifted out of range by r and 2r on either side) x all (start,end) in [-d-2,d+2]^2 x steps {1,2,3,-1} + INT64 extremes + all two-axis slices of rank-2 data); five data shapes of rank 4 and 5 x Gather along every axis in both spellings with index tensors of rank 0..2 in descending order, and the transposes of two neighbouring axes; index-coded data, dtype round-robin over all 14 element types, every Transpose / Concat / Gather case additionally as int64 and as float32; index tensors int32 instead of int64 in every fourth Gather / Slice case; quick tier keeps a seeded 1/%d sample of the Slice sweep of rank 3 and of Expand", maxRank, keep), tier == "thorough", 1200)
 	cw := &opEmitter{cw: raw}
 	bigShape := false // set for the shapes with an extent above 3: their Slice sweep is sampled 1 in 12
 	sel := func(rk int) bool {
@@ -113,6 +113,38 @@ func genC08(dir, tier string, seed int64) {
 			emitOp(raw, "Transpose", []attr{aInts("perm", []int64{1, 0})}, func() []tensor.Tensor { return []tensor.Tensor{f32t(s)} })
 			emitOp(raw, "Transpose", nil, func() []tensor.Tensor { return []tensor.Tensor{f32t(s)} })
 			dtForce = -1
+		}
+	}
+	// data of rank 4 and 5: Gather along every axis (both spellings) with index tensors of rank 0..2 whose
+	// values are NOT in ascending order, and the transposes that swap two neighbouring axes
+	for _, s := range [][]int{{2, 1, 3, 2}, {1, 2, 2, 3}, {2, 2, 2, 2}, {3, 2, 1, 4}, {2, 1, 2, 1, 3}} {
+		s := s
+		r := len(s)
+		for a := -r; a < r; a++ {
+			ax := a
+			if ax < 0 {
+				ax += r
+			}
+			d := int64(s[ax])
+			for _, is := range [][]int{{}, {2}, {3}, {2, 2}} {
+				is := is
+				idx := make([]int64, numel(is))
+				for i := range idx {
+					idx[i] = (d - 1 - int64(i)%d) // descending, then wrapping
+					if i%3 == 2 {
+						idx[i] -= d // the same position in its negative spelling
+					}
+				}
+				cw.emit("Gather", []attr{aInt("axis", int64(a))}, func() []tensor.Tensor { return []tensor.Tensor{f32t(s), i64t(is, idx)} })
+			}
+		}
+		for k := 0; k+1 < r; k++ {
+			p := make([]int64, r)
+			for i := range p {
+				p[i] = int64(i)
+			}
+			p[k], p[k+1] = p[k+1], p[k]
+			cw.emit("Transpose", []attr{aInts("perm", p)}, func() []tensor.Tensor { return []tensor.Tensor{f32t(s)} })
 		}
 	}
 	for _, s := range shapes {
